@@ -304,3 +304,27 @@ example : loadRules [("a", 0), ("b", 3), ("a", 5), ("a", 2)] =
     [("b", { idx := 1, thr := 3 }), ("a", { idx := 2, thr := 5 }), ("a", { idx := 3, thr := 2 })] := by decide
 
 end Sentinel.C04
+
+namespace Sentinel.C04
+open Sentinel.Iso
+
+/-- **the bound the soak op is judged by**: `G` goroutines looping Entry/Exit with batch `b` are `m = G·rounds` callers of which at
+    most `G` are ever between check and record; so whatever the interleaving the gauge (and every value a worker reads right after
+    its own admission) stays within `soakBound` = `max n0 (N + z) + (G − 1)`, `N` the tightest threshold of the resource. -/
+theorem soak_bound (rules : List Rule) (b : UInt32) (m G n0 N : Nat) (hb : n0 + m < 2147483648)
+    (hmin : minThr rules = some N) (s : List Nat)
+    (hw : ∀ p, p <+: s → nChecked (runT rules (List.replicate m b) (cfg0 n0 (List.replicate m b).length) p).th ≤ G) :
+    ∀ p, p <+: s →
+      (runT rules (List.replicate m b) (cfg0 n0 (List.replicate m b).length) p).g ≤ soakBound rules n0 G b ∧
+      (runT rules (List.replicate m b) (cfg0 n0 (List.replicate m b).length) p).mx ≤ soakBound rules n0 G b := by
+  intro p hp
+  have h := overshoot rules (List.replicate m b) n0 (by simpa using hb) N (if b = 0 then 1 else 0) G
+    (minThr_mem rules N hmin)
+    (fun x hx => by rw [List.eq_of_mem_replicate hx]; exact batch_pos_or_zero b) s hw p hp
+  unfold soakBound
+  rw [hmin]
+  simp only
+  push_cast at h ⊢
+  exact h
+
+end Sentinel.C04
